@@ -120,6 +120,17 @@ def run_check(pid, tier, seed):
     if not ok or not pf["ok"] or cov["obligations"] == 0:
         violation({"kind": "proof", "what": "Coq development or Properties/%s.v no longer checks" % pid,
                    "theorems": theorems, "log": pf.get("log", "")}, " no-failing-input-found")
+    elif tier == "thorough":
+        # independent re-check of the compiled property file and everything it depends on
+        rc, chk = vc.sh("timeout 1500 coqchk -o -silent -Q theories VpnModel VpnModel.Properties.%s" % pid, cwd=vc.COQ, timeout=1600)
+        summary = chk[chk.find("CONTEXT SUMMARY"):] if "CONTEXT SUMMARY" in chk else chk[-1500:]
+        cov["coqchk"] = {"cmd": "coqchk -o -silent -Q theories VpnModel VpnModel.Properties.%s" % pid, "rc": rc, "summary": summary.strip()}
+        clean = rc == 0 and all(("* %s: <none>" % k) in summary for k in
+                                ("Axioms", "Constants/Inductives relying on type-in-type", "Constants/Inductives relying on unsafe (co)fixpoints",
+                                 "Inductives whose positivity is assumed"))
+        if not clean:
+            violation({"kind": "proof", "what": "coqchk does not accept Properties/%s.vo without axioms or disabled checks" % pid,
+                       "log": summary}, " no-failing-input-found")
 
     # ---- 2. builds for the correspondence ---------------------------------------------------
     ok_ml, out_ml = vc.build_ocaml() if ok else (False, "coq build failed")
